@@ -7,10 +7,13 @@
 #include "dynstr.h"
 #include <stdarg.h>
 
+#ifndef FMT_OFF_NO_PRINTF
 int as_snprintf(char* pDest, size_t DestSize, const char* pFormat, ...) { (void)pFormat; if (DestSize) pDest[0] = 0; return 0; }
 int as_snprcatf(char* pDest, size_t DestSize, const char* pFormat, ...) { (void)pDest; (void)DestSize; (void)pFormat; return 0; }
 int as_sdprintf(struct as_dynstr* p_dest, const char* pFormat, ...) { (void)p_dest; (void)pFormat; return 0; }
 int as_sdprcatf(struct as_dynstr* p_dest, const char* pFormat, ...) { (void)p_dest; (void)pFormat; return 0; }
+
+#endif
 
 #ifndef FMT_OFF_NO_STR
 size_t strmaxcpy(char* dest, char const* src, size_t Max)
